@@ -851,6 +851,9 @@ pub fn run_step(env: &Env, ctx: &mut ThreadCtx, idx: usize, step: &Step) -> Step
 				executed = false;
 			}
 		}
+		Step::ParkKey { cont, route } => {
+			executed = step_park_key(env, ctx, *cont, *route);
+		}
 		Step::Acquire { target, read, try_ } => {
 			executed = step_acquire(env, ctx, *target, *read, *try_);
 		}
@@ -1051,6 +1054,171 @@ pub fn run_step(env: &Env, ctx: &mut ThreadCtx, idx: usize, step: &Step) -> Step
 		probe_key(env, ctx, ctx.key_alive(), "after step");
 	}
 	StepEnd::Continue
+}
+
+type Slot = Option<ThreadKey>;
+
+pub const PARK_CONTS: u8 = 10;
+
+pub fn park_cont_name(cont: u8) -> &'static str {
+	match cont % PARK_CONTS {
+		0 => "Mutex",
+		1 => "RwLock",
+		2 => "Poisonable<Mutex>",
+		3 => "Boxed<[Mutex;1]>",
+		4 => "Owned<(Mutex,RwLock)>",
+		5 => "Retry<Vec<Mutex>>",
+		6 => "Boxed<Vec<Mutex>>",
+		7 => "Boxed<Owned<[Mutex;2]>>",
+		8 => "Poisonable<Boxed<[RwLock;1]>>",
+		_ => "Boxed<(Mutex,Poisonable<RwLock>)>",
+	}
+}
+
+/// One container that owns the parked key, taken through one end of life.
+fn park_routes<C>(env: &Env, ctx: &mut ThreadCtx, label: &str, c: C, route: u8, into_inner: impl FnOnce(C) -> Slot, apart: impl FnOnce(C) -> Slot) {
+	probe_key(env, ctx, true, &format!("key parked in {label}"));
+	let back = |env: &Env, ctx: &mut ThreadCtx, k: Slot, how: &str| {
+		if k.is_none() {
+			env.finding("C06", ctx.tid, format!("parked-key-vanished|{label}|{how}"), format!("the key moved into the data of a {label} was not handed back by {how}"));
+			ctx.key_lost = true;
+		}
+		ctx.key = k;
+		probe_key(env, ctx, true, &format!("key taken back out of {label} by {how}"));
+	};
+	match route % 4 {
+		0 => {
+			drop(c);
+			env.label("park_drop");
+			probe_key(env, ctx, false, &format!("{label} that owned the key was dropped"));
+		}
+		1 => {
+			std::mem::forget(c);
+			ctx.key_lost = true;
+			env.label("park_forget");
+			probe_key(env, ctx, true, &format!("{label} that owned the key was leaked"));
+		}
+		2 => {
+			let k = into_inner(c);
+			env.label("park_into_inner");
+			back(env, ctx, k, "into_inner");
+		}
+		_ => {
+			let k = apart(c);
+			env.label("park_apart");
+			back(env, ctx, k, "into_child/get_mut");
+		}
+	}
+}
+
+fn step_park_key(env: &Env, ctx: &mut ThreadCtx, cont: u8, route: u8) -> bool {
+	use happylock::collection::{OwnedLockCollection, RetryingLockCollection};
+	use happylock::{LockCollection, Mutex as PM, Poisonable, RwLock as PR};
+	if ctx.guard.is_some() {
+		return false;
+	}
+	let Some(key) = ctx.key.take() else { return false };
+	let cont = cont % PARK_CONTS;
+	let label = park_cont_name(cont);
+	let ok = |r: Result<Slot, happylock::poisonable::PoisonError<Slot>>| r.unwrap_or_else(|e| e.into_inner());
+	match cont {
+		0 => park_routes(env, ctx, label, PM::new(Some(key)), route, |m| m.into_inner(), |mut m| m.get_mut().take()),
+		1 => park_routes(env, ctx, label, PR::new(Some(key)), route, |m| m.into_inner(), |mut m| m.get_mut().take()),
+		2 => park_routes(
+			env,
+			ctx,
+			label,
+			Poisonable::new(PM::new(Some(key))),
+			route,
+			|p| ok(p.into_inner()),
+			|mut p| match p.get_mut() {
+				Ok(s) => s.take(),
+				Err(mut e) => e.get_mut().take(),
+			},
+		),
+		3 => park_routes(
+			env,
+			ctx,
+			label,
+			LockCollection::new([PM::new(Some(key))]),
+			route,
+			|c| {
+				let [k] = c.into_inner();
+				k
+			},
+			|c| {
+				let [m] = c.into_child();
+				m.into_inner()
+			},
+		),
+		4 => park_routes(
+			env,
+			ctx,
+			label,
+			OwnedLockCollection::new((PM::new(7i32), PR::new(Some(key)))),
+			route,
+			|c| c.into_inner().1,
+			|mut c| c.get_mut().1.take(),
+		),
+		5 => park_routes(
+			env,
+			ctx,
+			label,
+			RetryingLockCollection::new(vec![PM::new(Some(key))]),
+			route,
+			|c| Vec::from(c.into_inner()).pop().flatten(),
+			|c| c.into_child().pop().and_then(|m| m.into_inner()),
+		),
+		6 => park_routes(
+			env,
+			ctx,
+			label,
+			LockCollection::new(vec![PM::new(None), PM::new(Some(key))]),
+			route,
+			|c| Vec::from(c.into_inner()).pop().flatten(),
+			|c| c.into_child().pop().and_then(|m| m.into_inner()),
+		),
+		7 => park_routes(
+			env,
+			ctx,
+			label,
+			LockCollection::new(OwnedLockCollection::new([PM::new(Some(key)), PM::new(None)])),
+			route,
+			|c| {
+				let [k, _] = c.into_inner();
+				k
+			},
+			|c| {
+				let [k, _] = c.into_child().into_inner();
+				k
+			},
+		),
+		8 => park_routes(
+			env,
+			ctx,
+			label,
+			Poisonable::new(LockCollection::new([PR::new(Some(key))])),
+			route,
+			|p| {
+				let [k] = p.into_inner().unwrap_or_else(|e| e.into_inner());
+				k
+			},
+			|p| {
+				let [k] = p.into_child().unwrap_or_else(|e| e.into_inner()).into_inner();
+				k
+			},
+		),
+		_ => park_routes(
+			env,
+			ctx,
+			label,
+			LockCollection::new((PM::new(7i32), Poisonable::new(PR::new(Some(key))))),
+			route,
+			|c| ok(c.into_inner().1),
+			|c| ok(c.into_child().1.into_inner()),
+		),
+	}
+	true
 }
 
 fn acquire_frame_kind(try_: bool) -> CallKind {
